@@ -246,7 +246,6 @@ Proof.
   unfold writer_chunks. destruct root as [tag s e sh fs | | | | | | | |]; try discriminate.
   destruct (negb _); [discriminate|].
   destruct ((walk ts (2 * tdepth (Node tag s e sh fs) + 2) (Node tag s e sh fs) >> spaces_to ts (ntok ts)) (mkW 0 0 [])) as [st|] eqn:E; [|discriminate].
-  destruct (w_pos st =? ntok ts); [|discriminate].
   intros [= <- _].
   assert (HP : P 0 0 (walk ts (2 * tdepth (Node tag s e sh fs) + 2) (Node tag s e sh fs) >> spaces_to ts (ntok ts))).
   { eapply (P_seq' 0 0 0 0 0 0); [apply walk_balanced | apply P_spaces_to | reflexivity | cbn; lia]. }
